@@ -33,6 +33,7 @@ func genC11(t *rapid.T) PipeCase {
 	}
 	c.Procs = rapid.SampledFrom([]int{1, 2, 4, 16}).Draw(t, "procs")
 	c.SlowFin = rapid.SliceOfN(rapid.Bool(), len(c.Targets), len(c.Targets)).Draw(t, "slowfin")
+	c.Breaks = drawBreaks(t, len(c.Feats))
 	return c
 }
 
